@@ -3,6 +3,10 @@
 package index
 
 import (
+	"context"
+
+	"github.com/sourcegraph/zoekt"
+	"github.com/sourcegraph/zoekt/query"
 	verifrt "github.com/sourcegraph/zoekt/zz_verifrt"
 )
 
@@ -106,4 +110,101 @@ func H_C09_docSections() {
 func H_C09_twin() {
 	H_C09_deltas32()
 	verifrt.Assert(false, "twin")
+}
+
+// DocChecker is reused across documents by Builder.Add: the verdict on a document must not
+// depend on what was checked before it, and must be the documented reason.
+func H_C09_docChecker() {
+	var t DocChecker
+	max := verifrt.Concretize(verifrt.IntRange("max", 1, 2))
+	mk := func(name string) []byte {
+		n := verifrt.Concretize(verifrt.IntRange(name+"len", 0, verifrt.Param("doclen", 5, 6)))
+		b := verifrt.Bytes(name, n)
+		for _, c := range b {
+			verifrt.Assume(verifrt.Or(verifrt.Or(c == 'a', c == 'b'), c == 0))
+		}
+		return b
+	}
+	first, second := mk("first"), mk("second")
+	r1 := t.Check(first, max, false)
+	got := t.Check(second, max, false)
+	var fresh DocChecker
+	want := fresh.Check(second, max, false)
+	verifrt.Observe("r1", int(r1))
+	verifrt.Observe("got", int(got))
+	verifrt.Assert(got == want, "the verdict on a document does not depend on the documents checked before it")
+	// the documented reason, by a direct count of distinct trigrams
+	ref := SkipReasonNone
+	hasNul := false
+	for _, c := range second {
+		if c == 0 {
+			hasNul = true
+		}
+	}
+	switch {
+	case len(second) == 0:
+	case len(second) < 3:
+		ref = SkipReasonTooSmall
+	case hasNul:
+		ref = SkipReasonBinary
+	case len(second)-2 > max:
+		distinct := 0
+		for i := 0; i+3 <= len(second); i++ {
+			seen := false
+			for j := 0; j < i; j++ {
+				if second[j] == second[i] && second[j+1] == second[i+1] && second[j+2] == second[i+2] {
+					seen = true
+				}
+			}
+			if !seen {
+				distinct++
+			}
+		}
+		if distinct > max {
+			ref = SkipReasonTooManyTrigrams
+		}
+	}
+	verifrt.Assert(got == ref, "skip reason is the documented one (empty, too small, binary, too many distinct trigrams)")
+	verifrt.Reach("returned")
+}
+
+// H_C09_roundtrip (style P): a document with symbolic content bytes (ASCII, newline, the two bytes of
+// a two-byte rune in any order - so valid and invalid UTF-8) next to a fixed one is written by the
+// real writer, loaded by the real reader and read back through Search(const, Whole).
+func H_C09_roundtrip() {
+	verifrt.ClockConcrete()
+	n := verifrt.Concretize(verifrt.IntRange("n", 0, verifrt.Param("n", 3, 4)))
+	content := verifrt.Bytes("c", n)
+	for _, c := range content {
+		verifrt.Assume(verifrt.Or(verifrt.Or(c == 'a', c == 'b'), verifrt.Or(c == '\n', verifrt.Or(c == 0xC3, c == 0xA9))))
+	}
+	repo := verifRepo(7, "rt", "main", "dev")
+	b, err := NewShardBuilder(repo)
+	verifrt.Assert(err == nil, "builder")
+	twoBranches := verifrt.Bool("both")
+	br := []string{"dev"}
+	if twoBranches {
+		br = []string{"main", "dev"}
+	}
+	verifrt.Assert(b.Add(Document{Name: "sym.txt", Content: content, Branches: br, Language: "Text", Category: FileCategoryDefault}) == nil, "add symbolic document")
+	verifrt.Assert(b.Add(Document{Name: "fixed.go", Content: []byte("package fixed\n"), Branches: []string{"main"}, Language: "Go", Category: FileCategoryDefault}) == nil, "add fixed document")
+	d := verifLoad(verifWriteShard(b, "verif-rt.zoekt"))
+	res, serr := d.Search(context.Background(), &query.Const{Value: true}, &zoekt.SearchOptions{Whole: true})
+	verifrt.Assert(serr == nil, "search")
+	verifrt.Assert(len(res.Files) == 2, "every document is read back")
+	if len(res.Files) == 2 {
+		f := res.Files[0]
+		verifrt.Assert(f.FileName == "sym.txt" && res.Files[1].FileName == "fixed.go", "names and order are preserved")
+		verifrt.Assert(string(f.Content) == string(content), "content is read back byte for byte")
+		verifrt.Assert(string(res.Files[1].Content) == "package fixed\n", "the neighbouring document is intact")
+		verifrt.Assert(f.Language == "Text" && res.Files[1].Language == "Go", "languages are preserved")
+		if twoBranches {
+			verifrt.Assert(len(f.Branches) == 2 && f.Branches[0] == "main" && f.Branches[1] == "dev", "branch membership is preserved (two branches)")
+		} else {
+			verifrt.Assert(len(f.Branches) == 1 && f.Branches[0] == "dev", "branch membership is preserved")
+		}
+		verifrt.Assert(f.Repository == "rt" && f.RepositoryID == 7, "repository metadata is preserved")
+	}
+	verifrt.Observe("n", n)
+	verifrt.Reach("returned")
 }
